@@ -41,9 +41,12 @@ Lemma ranked_lookup_ext rank : ranked g rank -> ranked g' rank.
 Proof. intros H n ps body src Hl. rewrite <- Hlk in Hl. eapply H; eauto. Qed.
 End Order.
 
+Lemma catch_free_perm g g' : Permutation g g' -> catch_free g -> catch_free g'.
+Proof. intros Hp H n ps body Hin. eapply H. eapply Permutation_in; [apply Permutation_sym, Hp|exact Hin]. Qed.
+
 Lemma order_irrelevant_l : forall g g' inputs rank F ns ns',
   NoDup (map fst g) -> Permutation g g' -> Permutation ns ns' -> ns <> [] ->
-  ranked g rank -> (forall n, rank n < F) ->
+  ranked g rank -> (forall n, rank n < F) -> catch_free g ->
   (* the value of a node is a function of the node alone *)
   (forall n, node_value g inputs F n = node_value g' inputs F n) /\
   (forall vs, pipeline_run g inputs F ns = Values vs -> vs = map (node_value g inputs F) ns) /\
@@ -51,7 +54,8 @@ Lemma order_irrelevant_l : forall g g' inputs rank F ns ns',
   (* and whether the run fails does not depend on either order *)
   ((exists vs, pipeline_run g inputs F ns = Values vs) <-> (exists vs, pipeline_run g' inputs F ns' = Values vs)).
 Proof.
-  intros g g' inputs rank F ns ns' Hnd Hp Hpn Hne Hr HF.
+  intros g g' inputs rank F ns ns' Hnd Hp Hpn Hne Hr HF Hcf.
+  pose proof (catch_free_perm g g' Hp Hcf) as Hcf'.
   pose proof (lookup_perm g g' Hnd Hp) as Hlk.
   pose proof (ranked_lookup_ext g g' Hlk rank Hr) as Hr'.
   assert (Hnv : forall n, node_value g inputs F n = node_value g' inputs F n).
@@ -62,8 +66,8 @@ Proof.
   { intros ->. apply Permutation_sym, Permutation_nil in Hpn. contradiction. }
   split; [exact Hnv|]. split; [|split].
   - intros vs H. eapply run_values_l; eauto.
-  - intros vs H. rewrite (run_values_l g' inputs rank Hr' F HF ns' vs H). apply map_ext. intros; symmetry; apply Hnv.
-  - rewrite (run_succeeds_iff g inputs rank Hr F HF ns), (run_succeeds_iff g' inputs rank Hr' F HF ns').
+  - intros vs H. rewrite (run_values_l g' inputs rank Hr' F HF Hcf' ns' vs H). apply map_ext. intros; symmetry; apply Hnv.
+  - rewrite (run_succeeds_iff g inputs rank Hr F HF Hcf ns), (run_succeeds_iff g' inputs rank Hr' F HF Hcf' ns').
     assert (E1 : requests g ns = ns) by (destruct ns; [congruence|reflexivity]).
     assert (E2 : requests g' ns' = ns') by (destruct ns'; [congruence|reflexivity]).
     rewrite E1, E2. rewrite !Forall_forall. split; intros H n Hn.
@@ -123,11 +127,11 @@ Qed.
 
 (* ---- the recursion bound of the model is immaterial once it exceeds the depth ---- *)
 Lemma run_fuel_irrelevant_l : forall g inputs rank F1 F2 ns,
-  ranked g rank -> (forall n, rank n < F1) -> (forall n, rank n < F2) ->
+  ranked g rank -> (forall n, rank n < F1) -> (forall n, rank n < F2) -> catch_free g ->
   pipeline_run g inputs F1 ns = pipeline_run g inputs F2 ns.
 Proof.
-  intros g inputs rank F1 F2 ns Hr H1 H2.
-  rewrite (run_correct_l g inputs rank Hr F1 H1), (run_correct_l g inputs rank Hr F2 H2).
+  intros g inputs rank F1 F2 ns Hr H1 H2 Hcf.
+  rewrite (run_correct_l g inputs rank Hr F1 H1 Hcf), (run_correct_l g inputs rank Hr F2 H2 Hcf).
   pose proof (den_fuel_irrelevant g inputs rank F1 F2 Hr H1 H2) as E.
   unfold den_outcome.
   assert (El : forall l, den_list g inputs F1 l = den_list g inputs F2 l).
